@@ -25,7 +25,11 @@ def C(label, text, props=(), guard=None, finding=None, stub_only=False):
 
 
 class Loop:
-    def __init__(self, invariant=(), decreases=None, ensures=(), invariant_except_break=()):
+    def __init__(self, invariant=(), decreases=None, ensures=(), invariant_except_break=(), body_start=None, body_end=None):
+        # ghost text placed right after the loop body's `{` / right before its `}` (structural anchors,
+        # independent of the statements inside the body)
+        self.body_start = body_start
+        self.body_end = body_end
         self.invariant = list(invariant)
         self.invariant_except_break = list(invariant_except_break)
         self.ensures = list(ensures)
